@@ -1161,8 +1161,9 @@ diskdump_attr_cleanup(struct attr_dict *dict)
 {
 	struct disk_dump_priv *ddp = dict->shared->fmtdata;
 
-	attr_remove_override(dgattr(dict, GKI_memory_pagemap),
-			     &ddp->mem_pagemap_override);
+	if (ddp)
+		attr_remove_override(dgattr(dict, GKI_memory_pagemap),
+				     &ddp->mem_pagemap_override);
 }
 
 static void
